@@ -439,5 +439,51 @@ pub fn run_prop(cli: &Cli) -> i32 {
     if let Some(id) = dup {
         report.violation("session-id-repeated", "the same session id was issued on two connections", json!({"id": id}));
     }
+    // a client that presents *something* as its session cookie - not JSON, JSON of another layout,
+    // raw bytes - has presented one: it is not given a fresh session as if it had presented none
+    for (k, (name, payload)) in [
+        ("not-json", b"definitely not json".to_vec()),
+        ("empty-object", b"{}".to_vec()),
+        ("other-layout", br#"{"session":"0f0e0d0c","host":"x"}"#.to_vec()),
+        ("number-id", br#"{"id":7,"server_address":"a.example.org","server_port":25565}"#.to_vec()),
+        ("raw-bytes", vec![0xff, 0xfe, 0x00, 0x01]),
+        ("empty-payload", vec![]),
+    ]
+    .into_iter()
+    .enumerate()
+    {
+        let mut rng = Rng::stream(cli.seed, 92_000 + k as u64);
+        let c = Case {
+            class: format!("malformed-session-cookie/{name}"),
+            first_intent: if k % 2 == 0 { Intent::Login } else { Intent::Transfer },
+            secret: Some(rng.bytes(16)),
+            expiry: None,
+            client_addr: mk::random_addr(&mut rng).parse().expect("addr"),
+            claimed: mk::ident(&mut rng, "claimed"),
+            authed: mk::ident(&mut rng, "vouched"),
+            props: vec![],
+            targets: mk::targets(&mut rng, 2),
+            pick: 0,
+            presented_session: true,
+            host: "sessions.example.org".into(),
+            port: 25565,
+            second: Second::SameIpOtherPort,
+            seeds: (rng.u64(), rng.u64()),
+        };
+        let sc = scenario(&c, c.first_intent, c.client_addr, None, Some(payload.clone()), c.seeds.0);
+        let r = run(&sc);
+        let f = facts(&r);
+        report.eval(Some(&c.class));
+        report.count("malformed session cookies presented", 1);
+        let fresh: Vec<_> = f.store_cookies.iter().filter(|s| s.0 == SESSION_KEY).collect();
+        report.sample(json!({"case": c.class, "clientbound": r.client.names(), "result": r.result.kind()}));
+        if !fresh.is_empty() {
+            report.violation(
+                &format!("session-cookie-issued-although-one-was-presented/{name}"),
+                "a client that presented a session cookie (one the router cannot read) was given a fresh session as if it had presented none",
+                witness(&sc, &r, json!({"presented_payload": vp_common::report::hex(&payload), "stored": fresh.len()})),
+            );
+        }
+    }
     report.finish()
 }
